@@ -764,8 +764,16 @@ class Gen:
         nodes.append(("s", "mon = SerialMonitor(9600)"))
         nodes.append(("s", f"led = Led({self.choice([13, 12, 11])})"))
         decls = []
+        def const_int():
+            # declarations initialised by constant arithmetic (also with the operators that need run-time helpers when they are not folded)
+            if self.chance(0.7):
+                return self.int_lit()
+            a, b = self.int_lit(0, 300), self.int_lit(1, 9)
+            self.feat("const_expr_decl")
+            return self.choice([f"({a} // {b})", f"({a} % {b})", f"({b} ** {self.int_lit(0, 3)})", f"({a} + {b} * 2)", f"(-{a} // {b})", f"({a} // {b} % 7)", f"abs({b} - {a})"])
+
         for i in range(self.d(st.integers(1, 3))):
-            decls.append((f"i{i}", "int", self.int_lit()))
+            decls.append((f"i{i}", "int", const_int()))
         for i in range(2):
             decls.append((f"w{i}", "int", "0"))
         for i in range(self.d(st.integers(0, 2))):
